@@ -112,6 +112,10 @@ def check(case):
             P.subject_to(need <= cap)
             param_false = case["param_con"] == "false"
             classes.append("param-only-constraint:" + case["param_con"])
+        if len(desc) % 3 != 1 or case.get("prelude"):
+            lab = models.shared_constraint_prelude(P, built, len(desc))
+            if lab:
+                classes.append(lab)
         try:
             sol = P.solve(method=method)
             if case.get("resolve"):
